@@ -949,6 +949,11 @@ def verify_hyperparameters(input_keypoints=None,
       raise ValueError("PWLCalibrator weights must have shape: [k, units] where"
                        " k > 1. It is: " + str(weights_shape))
 
+  if lengths is not None and not tf.is_tensor(lengths):
+    if not all(length > 0 for length in lengths):
+      raise ValueError("Lengths of pieces must be positive. They are: %s" %
+                       (lengths,))
+
   if lengths is not None and weights_shape is not None:
     if tf.is_tensor(lengths):
       num_lengths = lengths.shape[0]
